@@ -61,6 +61,12 @@ func termOf(v ssa.Value, depth int, onpath map[ssa.Value]bool) *Term {
 	case *ssa.FieldAddr:
 		st := derefStruct(x.X.Type())
 		f := st.Field(x.Field)
+		if a, ok := x.X.(*ssa.Alloc); ok {
+			if ss := singleStore(a); ss != nil && len(allocStores(a)) == 1 {
+				// cell holds a copy of another value: field of that value
+				return &Term{Op: "field", Name: f.Name(), Fld: f, Args: []*Term{rec(ss.Val)}, V: v}
+			}
+		}
 		return &Term{Op: "field", Name: f.Name(), Fld: f, Args: []*Term{rec(x.X)}, V: v}
 	case *ssa.Field:
 		st := derefStruct(x.X.Type())
@@ -71,6 +77,10 @@ func termOf(v ssa.Value, depth int, onpath map[ssa.Value]bool) *Term {
 		case token.MUL:
 			// load: transparent, except loads of local cells which become "local".
 			if a, ok := x.X.(*ssa.Alloc); ok {
+				// a local cell written exactly once: see through to the stored value
+				if st := singleStore(a); st != nil {
+					return rec(st.Val)
+				}
 				name := a.Comment
 				if name == "" {
 					name = "tmp"
